@@ -624,8 +624,8 @@ def run_impl(spec, case, trials=True, crash_budget=None, rng=None):
         for act in case['acts']:
             pre = fs.state()
             believed = m.persistentData
-            pobj = m.parameters[act['name']] if act['a'] == 'set' else None
-            pstate = (pobj.value, pobj.readerror, pobj.timestamp) if pobj is not None else None
+            pstate = {n: (p.value, p.readerror, p.timestamp) for n, p in m.parameters.items()}
+            wdstate = dict(m.writeDict)
             callbacks = {n: list(cbs) for n, cbs in m.paramCallbacks.items()}
             m.wlog = []
             fs.reset(act.get('fault'))
@@ -639,21 +639,26 @@ def run_impl(spec, case, trials=True, crash_budget=None, rng=None):
             rec['data'] = export_data(m)
             out['datas'].append(rec['data'])
             out['steps'].append(rec)
-            # ---- fork: the same save under every single fault, each followed by a healthy next save.  The save is triggered
-            # the way the step triggered it: an explicit saveParameters(), or - for a change of an `auto` parameter - the
-            # update itself (state of the parameter put back), followed by the next update of that parameter (the same value
-            # announced again, as every poll does); so the path through the callbacks of announceUpdate meets every fault, too
+            # ---- fork: the same step under every single fault, each followed by a healthy next save.  The state of the module
+            # (values, pending writes, persistentData, callback lists) and the disk are put back and the *action itself* is
+            # repeated - so the save is triggered the way the step triggered it (saveParameters(), or through the callbacks of
+            # announceUpdate for an update / writeInitParams / loadParameters / factory_reset) and that path meets every fault.
+            # The next save is the next trigger of the same kind: for an update of an `auto` parameter the same value announced
+            # again (as every poll does), otherwise an explicit saveParameters()
             if trials and act.get('fault') is None and rec['evs'] and not m.writeDict:
                 post = fs.state()
                 post_believed = m.persistentData
                 post_callbacks = m.paramCallbacks
                 nops = len(rec['evs'])
-                via = 'set' if pobj is not None else 'save'
+                via = act['a']
 
                 def trigger(first):
-                    if via == 'set':
-                        if first:
-                            pobj.value, pobj.readerror, pobj.timestamp = pstate
+                    if first:
+                        for n, p in m.parameters.items():
+                            p.value, p.readerror, p.timestamp = pstate[n]
+                        m.writeDict.clear()
+                        m.writeDict.update(wdstate)
+                    if first or via == 'set':
                         do_action(m, spec, act)
                     else:
                         m.saveParameters()
@@ -890,6 +895,10 @@ def gen_case(rng, spec, big):
         if r < 0.41 and names:
             p = rng.choice(pers or spec['params'])
             act = {'a': 'set', 'name': p['name'], 'val': gen_val(rng, p['dt'], valid=rng.random() < 0.85)}
+            if p['flag'] == 'on' and rng.random() < 0.5:
+                # what a module with `persistent='on'` parameters does itself: save explicitly after the change
+                acts.append(act)
+                act = {'a': 'save'}
         elif r < 0.48 and names:
             act = {'a': 'seterr', 'name': rng.choice(pers or spec['params'])['name'], 'how': rng.choice(['err', 'err', 'invalid']),
                    'no': rng.randrange(2)}
@@ -1188,6 +1197,8 @@ def check_case(ctx, res, spec, case, quick_crash=3, kind='history'):
                      'fin': hexo(t['second']['target']), 'ops2': len(t['second']['evs'])})
         tags.append(('retry', ('trial', j)))
         res.traces += 2
+        if t['k'] == 0 and not t.get('cleanup'):
+            res.count('fork.via-' + str(t.get('via')))
         res.count('fault.at.' + t['first']['evs'][t['k']][0] + ('.disk-full' if t.get('sticky') else '') + ('.and-cleanup' if t.get('cleanup') else '')
                   if t['k'] < len(t['first']['evs']) else 'fault.unreached')
     # ---- "a save that failed is attempted again by the next save" along the history itself: after a step in which a save hit the
@@ -1302,7 +1313,7 @@ def check_case(ctx, res, spec, case, quick_crash=3, kind='history'):
         elif tag == 'retry' and not a['ok']:
             t = impl['trials'][where[1]]
             res.violations.append({'sig': 'C17:failed-save-not-retried',
-                                   'what': f'save ({"update of an auto parameter" if t.get("via") == "set" else "saveParameters()"}) failed '
+                                   'what': f'save ({ {"set": "update of an auto parameter", "save": "saveParameters()", None: "saveParameters()"}.get(t.get("via"), "inside " + str(t.get("via")))}) failed '
                                            f'with {t["first"]["exc"] or "an error swallowed by announceUpdate"} at operation {t["k"]} '
                                            f'({(t["first"]["evs"] or [["?"]])[min(t["k"], len(t["first"]["evs"]) - 1)][:2]}); the next one performed '
                                            f'{len(t["second"]["evs"])} file operations and the file still holds the old snapshot',
